@@ -1,8 +1,10 @@
 import CashewsVerif.Lemmas.LruLeaves
+import CashewsVerif.Lemmas.SweepReach
 /-
 C11 — the in-memory backend respects its capacity and evicts least-recently-used first.
 Property theorems only; the ghost-instrumented model is `Model/Lru.lean`, helper lemmas are
-`Lemmas/LruPurge.lean`, `Lemmas/LruGhost.lean`, `Lemmas/LruOrder.lean`, `Lemmas/LruLeaves.lean`.
+`Lemmas/LruPurge.lean`, `Lemmas/LruGhost.lean`, `Lemmas/LruOrder.lean`, `Lemmas/LruLeaves.lean`; the purge
+task at key granularity is `Model/Sweep.lean` with `Lemmas/Sweep.lean`, `Lemmas/SweepReach.lean`.
 
 Every theorem quantifies over *all* capacities (0 included) and *all* histories of the `Op` alphabet
 (set / conditional set / set_many / get / get_many / exists / incr / delete / delete_many / expire /
@@ -120,6 +122,51 @@ theorem purge_preserves_order_any (s : Mem) (h : (keys s.store).Nodup) :
     s.purge = { s with store := s.store.filter (fun p => p.2.live s.now) } :=
   Mem.purge_eq s h
 
+/-- **Sweeps are `purge` operations: the atomicity assumption made explicit.**  All theorems of this file
+quantify over histories of `Op`, in which a sweep is the single operation `purge`.  That is the right
+alphabet for the real system *under the assumption that a sweep is atomic with respect to commands*
+(`Memory.get` never suspends, so the purge task handles all keys of a tick in one step; Model/Sweep.lean).
+Formally: take any history of commands and ticks (`Item`), any start state; write every tick out as its
+per-key micro-steps `recheck k` over the keys the tick finds, *contiguously* (`atomicEvents`).  Running
+that key-granularity history gives the same answers and the same final store as the command-granularity
+run, whose states are the states of the `Op` history with `purge` at the places of the ticks.  Nothing is
+claimed - and, see `split_recheck_sweep_breaks_lru`, nothing of C11 holds - for key-granularity histories
+outside the image of `atomicEvents`, i.e. sweeps cut in pieces by commands. -/
+theorem atomic_sweeps_are_purge_ops (s : Mem) (h : List Item) :
+    s.runEv (s.atomicEvents h) = s.runItems h ∧ (s.runItems h).1 = (s.run (h.map Item.toOp)).1 :=
+  ⟨Mem.atomic_history h s, Mem.runItems_state h s⟩
+
+/-- **The same for a sweep written differently**: one that first collects the keys whose deadline has passed
+and then removes exactly those (`expiredKeys`, micro-step `stale k`), as long as it is uninterrupted, is
+also the model's `purge` - in every reachable state.  This is why the harness translates whatever the
+purge task did at one instant, without an application command in between, into one `purge` line and lets
+the comparison decide: how the sweep is written does not matter, whether it is atomic does. -/
+theorem atomic_snapshot_sweeps_are_purge_ops (cap : Nat) (pre : List Op) (h : List Item) :
+    let s := ((Mem.init cap).run pre).1
+    s.runEv (s.atomicStaleEvents h) = s.runItems h :=
+  Mem.atomic_stale_history cap h pre
+
+/-- **Why the assumption is needed for C11, even for the re-checking sweep**: capacity 2, keys 0 and 1 written
+in this order.  A tick handles key 0 (moved to the end), then - the sweep is cut here - the application
+writes key 2: the store is full and the victim is key 1, *more* recently used than key 0, with only one
+other key (2) used after it: the victim rule is broken.  With the sweep before or after the write (the
+two atomic placements) the victim is key 0. -/
+theorem split_recheck_sweep_breaks_lru :
+    let w0 := Op.set 0 (.tok 0) none .always
+    let w1 := Op.set 1 (.tok 1) none .always
+    let w2 := Op.set 2 (.tok 2) none .always
+    keys ((Mem.init 2).runEv [.cmd w0, .cmd w1, .recheck 0, .cmd w2, .recheck 1]).1.store = [0, 2] ∧
+    keys ((Mem.init 2).runItems [.cmd w0, .cmd w1, .tick, .cmd w2]).1.store = [1, 2] ∧
+    keys ((Mem.init 2).runItems [.cmd w0, .cmd w1, .cmd w2, .tick]).1.store = [1, 2] := by decide
+
+/-- … and for the snapshot sweep: cut by a fresh write of a key it had decided to remove, it removes the
+most recently used key of the store (seeded change C11-6) -/
+theorem split_snapshot_sweep_removes_fresh_key :
+    let pre := [Ev.cmd (.set 0 (.tok 0) (some 8) .always), .cmd (.set 1 (.tok 1) (some 8) .always), .cmd (.adv 8)]
+    let w := Op.set 1 (.tok 2) (some 80) .always
+    keys ((Mem.init 3).runEv (pre ++ [.stale 0, .cmd w, .stale 1])).1.store = [] ∧
+    keys ((Mem.init 3).runEv (pre ++ [.stale 0, .stale 1, .cmd w])).1.store = [1] := by decide
+
 /-- **(d) Recently used ⇒ still held, at all times.**  After every history: a key that has been used,
 has not been deleted / cleared / collected as expired since its last use (`k ∉ gone`), and has fewer than
 `cap` distinct other keys used more recently, is physically in the store; and unless that entry's deadline
@@ -180,6 +227,17 @@ example : ((Lru.init 3).run [.set 0 (.tok 0) (some 8) .always, .set 1 (.tok 1) n
     .delete 1, .set 1 (.tok 2) none .always]).1.gone = [0] := by decide
 
 example : [Op.get 0] <+: [Op.get 0, Op.clear] := ⟨[Op.clear], rfl⟩
+
+/-- `atomicEvents` / `atomicStaleEvents` write a tick out over what it finds: key 0 expired, key 1 live -/
+example : (Mem.init 2).atomicEvents [.cmd (.set 0 (.tok 0) (some 8) .always), .cmd (.set 1 (.tok 1) none .always),
+      .cmd (.adv 8), .tick, .cmd (.get 1)]
+    = [.cmd (.set 0 (.tok 0) (some 8) .always), .cmd (.set 1 (.tok 1) none .always), .cmd (.adv 8),
+       .recheck 0, .recheck 1, .cmd (.get 1)] := by rfl
+
+example : (Mem.init 2).atomicStaleEvents [.cmd (.set 0 (.tok 0) (some 8) .always), .cmd (.set 1 (.tok 1) none .always),
+      .cmd (.adv 8), .tick, .cmd (.get 1)]
+    = [.cmd (.set 0 (.tok 0) (some 8) .always), .cmd (.set 1 (.tok 1) none .always), .cmd (.adv 8),
+       .stale 0, .cmd (.get 1)] := by rfl
 
 /-- premises of `eviction_is_recorded` / `leaves_only_by` are satisfiable, by eviction (key 0 is held and is
 no longer held after the write of key 2) … -/
